@@ -343,8 +343,29 @@ func runC06(c *an.Ctx) {
 				n++
 				c.Check((an.Flow{Fn: readByKey, Skip: pr.Removed}).MustPrecede(isDel, r) && t.ErrShape(errResult(r)) != "nil", "C06.d", "dangling-pointer-dropped",
 					"a pointer whose header is missing is deleted from the datastore before readByKey returns its error", readByKey, r, "", nil)
+				// … and the error it returns is still recognised as header.ErrNotFound by init, which treats
+				// exactly that as "pointer absent, start anyway" (a %v wrap makes the reopen after a crash
+				// between a deletion and its pointer write fail)
+				c.Check(keepsErrIdentity(t, errResult(r), gErr, "header.ErrNotFound", 0), "C06.d", "dangling-pointer-error-identity",
+					"the error returned for a dangling pointer keeps the identity of the lookup's ErrNotFound (init tolerates that error and nothing else)", readByKey, r, "returns "+t.ErrShape(errResult(r)), nil)
 			}
 			c.Min("C06.d", "returns for a dangling pointer", n, 1)
+			// an absent pointer key is reported as header.ErrNotFound as well (an empty datastore starts)
+			an.Instrs(readByKey, func(in ssa.Instruction) {
+				gc, isCall := in.(*ssa.Call)
+				if !isCall || !strings.HasSuffix(an.StaticFullName(&gc.Call), "keytransform.Datastore).Get") {
+					return
+				}
+				dErr := t.Of(gc) + "#1"
+				absent := an.B("errors.Is(" + dErr + ",github.com/ipfs/go-datastore.ErrNotFound)")
+				pa := ff.Prune(an.NE(dErr, "nil"), absent)
+				for _, r := range pa.Returns() {
+					if pa.AtInstr(r).Has(absent) {
+						c.Check(keepsErrIdentity(t, errResult(r), "", "header.ErrNotFound", 0), "C06.d", "absent-pointer-error-identity",
+							"an absent pointer key is reported as header.ErrNotFound (init tolerates that error and nothing else)", readByKey, r, "returns "+t.ErrShape(errResult(r)), nil)
+					}
+				}
+			})
 			for _, r := range ff.Returns() {
 				if t.ErrShape(errResult(r)) == "nil" {
 					c.Check(ff.AtInstr(r).Has(an.EQ(gErr, "nil")) && t.Of(t.Deref(r.Results[0])) == t.Of(getCall)+"#0", "C06.d", "returns-resolved-header", "readByKey returns nil-error only with the header the pointer resolved to", readByKey, r, "", ff.AtInstr(r))
